@@ -122,7 +122,10 @@ def run(tier, replay=None):
         cres = run_tlc("Gen_Conform", cfg="Gen_Conform", simulate=(30 if tier == "quick" else 600), depth=10, workers=4, seed_=seed() * 59 + 4)
         texts += list(dict.fromkeys(c["text"] for c in cres.tagged("CASE"))) + corpus.SHARED_PROGRAMS
         texts += list(corpus.all_programs().values()) + corpus.VALUE_PROGRAMS + corpus.LOOP_PROGRAMS
-        texts += shared_programs(tier, out, part=4) + corpus.EXIT_PROGRAMS
+        texts += shared_programs(tier, out, part=4) + corpus.EXIT_PROGRAMS + corpus.CSR_PROGRAMS
+        rcsr = run_tlc("Gen_Csr", cfg="Gen_Csr", simulate=(60 if tier == "quick" else 3000), depth=10, workers=4, seed_=seed() * 61 + 3)
+        out.add_tlc(rcsr)
+        texts += [c["text"] for c in rcsr.tagged("CASE")]
         texts = list(dict.fromkeys(texts))
         texts += [json.dumps(f, sort_keys=True) for f in corpus.TWIN_FILES]      # multi-file inputs travel as JSON text
 
